@@ -98,7 +98,7 @@ def _child(d, spec):
         mode = spec.get('mode', 'cli')
         try:
             if mode == 'cli':
-                sys.argv = ['bespokeasm'] + list(spec['argv'])
+                sys.argv = ['bespokeasm'] + [a.replace('{SCRATCH}', d) for a in spec['argv']]
                 import bespokeasm.__main__ as bm
                 bm.entry_point()
                 status = 0
@@ -226,6 +226,7 @@ def run_case(spec):
                 if want_all or rel in (spec.get('collect') or []):
                     files[rel] = data.hex()
         out['files'] = files
+        out['scratch'] = os.path.realpath(d)
         out['unchanged'] = unchanged
         out['missing_inputs'] = [r for r in inputs if not os.path.exists(os.path.join(d, r))]
         post = spec.get('post')
